@@ -1408,6 +1408,17 @@ pub fn gen_program(p: &mut Prng) -> Program {
     let n = 1 + p.below(4) as usize;
     let env = gen_env(p, n, &o);
     let mut g = Gen { p, env, vars: vec![], helpers: vec![], kinds: Default::default(), fresh: 0, closed: false };
+    for d in &g.env.decls {
+        match d.nparams() {
+            1 => {
+                g.kinds.insert("generic-one-parameter");
+            }
+            2 => {
+                g.kinds.insert("generic-two-parameters");
+            }
+            _ => {}
+        }
+    }
     let mut body = vec![];
     // constants: closed initialisers, read whole or by field, never assigned
     let mut consts = vec![];
